@@ -206,8 +206,79 @@ def dynamic_path_cases(tier):
     return out
 
 
+@st.composite
+def mutated_list_case(draw):
+    t = draw(st.sampled_from([x for x in gen.LIST_TYPES if x not in ("record[]",)]))
+    inner = gen.scalar_value(t[:-2])
+    return {"type": t, "initial": draw(st.lists(inner, max_size=2)), "extra": draw(st.lists(inner, min_size=1, max_size=3)),
+            "how": draw(st.sampled_from(["append", "extend", "iadd", "insert0", "setitem"])),
+            "transport": draw(st.sampled_from(["bytesio", "path"]))}
+
+
+def check_mutated_list(case, ctx):
+    """A typed list that was extended in place after the record was created carries raw elements; the stream
+    must carry what the list means: reading back gives the record one gets by passing the full list up front."""
+    import datetime as _d
+
+    from flow.record import RecordDescriptor
+
+    t, how = case["type"], case["how"]
+    g = _d.datetime(2020, 1, 1, tzinfo=_d.timezone.utc)
+    desc = RecordDescriptor("t/mut", [(t, "l"), ("string", "s")])
+    init = [gen.build_value(v) for v in case["initial"]]
+    extra = [gen.build_value(v) for v in case["extra"]]
+    built = impl(lambda: desc(list(init), "x", _generated=g))
+    if not built.ok:
+        ctx.cls("discarded:constructor-raised")
+        return
+    rec = built.value
+    if how == "append":
+        for e in extra:
+            rec.l.append(e)
+        full = init + extra
+    elif how == "extend":
+        rec.l.extend(extra)
+        full = init + extra
+    elif how == "iadd":
+        lst = rec.l
+        lst += extra
+        full = init + extra
+    elif how == "insert0":
+        rec.l.insert(0, extra[0])
+        full = [extra[0]] + init
+    else:
+        if not init:
+            rec.l.append(extra[0])
+            full = [extra[0]]
+        else:
+            rec.l[0] = extra[0]
+            full = [extra[0]] + init[1:]
+    oracle = impl(lambda: desc(list(full), "x", _generated=g))
+    if not oracle.ok:
+        ctx.cls("discarded:constructor-raised")
+        return
+    ctx.cls("mutated:" + how, "type:" + t)
+    ctx.nontriv()
+    if case["transport"] == "bytesio":
+        res = impl(roundtrip_bytesio, [rec])
+        got = res.value[1] if res.ok else None
+    else:
+        d = ctx.fresh_dir()
+        try:
+            res = impl(roundtrip_path, [rec], os.path.join(d, "m.records"))
+        finally:
+            import shutil
+
+            shutil.rmtree(d, ignore_errors=True)
+        got = res.value if res.ok else None
+    if not res.ok:
+        raise Violation("mutated-list/raised/" + res.type, "%s after %s: round trip raised %r" % (t, how, res), detail=t[:-2])
+    compare_sequences([oracle.value], got, "mutated-list")
+
+
 def parts(tier):
     return [
+        Part("typedlist-mutated-in-place", check_mutated_list, strategy=mutated_list_case(), examples=(60, 1000)),
         Part("dynamic-holding-path", check_roundtrip, cases=dynamic_path_cases, exhaustive=True),
         Part("roundtrip", check_roundtrip, strategy=case_strategy(), examples=(200, 3000)),
         Part("roundtrip-focused", check_roundtrip, strategy=focused_strategy(), examples=(300, 4000)),
